@@ -12,7 +12,7 @@ import (
 
 func init() {
 	register(&Property{
-		ID: "C04",
+		ID:          "C04",
 		Explanation: "Complete structural argument for the connection limiter: (O1) every access to the per-source counter map is made under the limiter mutex (must-lockset over all call paths from exported methods); (O2) the only increment of connections[token] is on the admitting path of the acquire routine and the only decrement is in the release routine, both keyed by the same token and the same amount that ServeHTTP passes to both; (O3) the release is registered with defer, only on the acquire-succeeded edge, before the wrapped handler is invoked and with no call in between that could panic, so it runs on normal return and on panic, and never on the rejected edge; (O4) the acquire routine rejects exactly on the edge connections[token] - max >= 0 and performs no store on that edge. By induction connections[token] equals the number of that source's requests inside the handler and never exceeds max (amount 1). All paths of the functions involved are enumerated on the SSA CFG; nothing is executed.",
 		NotDecided: []string{
 			"custom extractors returning amount > 1 can overshoot max by amount-1 (the statement counts requests; built-in extractors return 1, see C19.R3)",
